@@ -378,10 +378,23 @@ def run(ctx):
     plain = [t for _o, t, _k in texts]
     rc1, pm, e1 = run_lines(drv, ["P\t" + t for t in plain])
     rc2, ps, e2 = run_lines(drv, ["S\t" + t for t in plain])
-    rc3, ph, e3 = run_lines(har, ["P\t" + t for t in plain])
+    # the real parser sees the texts in ONE process, with rejected inputs in between that end inside a comment, a string, a bracket ...:
+    # whatever they leave behind in the lexer / parser must not change the tree of the next text
+    POISON = ["a + b /* TODO: finish this", "/*", "a /* x", "\"abc", "a + (b", "a ? b :", "1e", "@", "arr[", "f2(a,", "a /* c */ +", "forall (i : int[0,1]) ("]
+    hl, keep = [], []
+    for idx, t in enumerate(plain):
+        if idx % 37 == 5:
+            hl.append("P\t" + POISON[(idx // 37) % len(POISON)])
+        keep.append(len(hl))
+        hl.append("P\t" + t)
+    rc3, ph_all, e3 = run_lines(har, hl)
+    cov["poison_inputs_interleaved"] = len(hl) - len(plain)
+    ph = [ph_all[i] for i in keep if i < len(ph_all)] if rc3 == 0 and len(ph_all) == len(hl) else ph_all[:0]
+    if rc3 == 0 and len(ph_all) != len(hl):
+        rc3 = 1
     if rc3 != 0 or len(ph) != len(plain):
         # the real parser crashed (sanitizer report or abort): find the input
-        bad = plain[len(ph)] if len(ph) < len(plain) else "?"
+        bad = hl[len(ph_all)][2:] if len(ph_all) < len(hl) else "?"
         ctx.finding("crash:parse_expression", "the real parser died on an expression text: %r" % bad,
                     {"entry": "parse_XTA(text, builder, true, S_EXPRESSION)", "text": bad, "stderr": e3[-3000:]})
         return
@@ -431,6 +444,45 @@ def run(ctx):
                             {"entry": "parse_XTA(whole model) with the expression as " + c, "context": c, "text": t, "observed": h,
                              "expected": canon_model(m)})
     cov["contexts"] = ctx_count
+    # builtin functions: every name of the reference table builds the kind the table gives it ---------------------------------------
+    spec_src = open(os.path.join(core.LEAN_DIR, "UtapModel", "Spec", "OperatorTable.lean")).read()
+    btab = re.findall(r'\("([a-z0-9_]+)", "([A-Z0-9_]+_F)", (\d)\)', spec_src[spec_src.index("def builtinSpec"):])
+    args = ["a", "b + 1", "x"]
+    btexts = ["%s(%s)" % (n, ", ".join(args[:int(ar)])) for n, _k, ar in btab] + ["-%s(%s) * c" % (n, ", ".join(args[:int(ar)])) for n, _k, ar in btab]
+    _, bh, _ = run_lines(har, ["P\t" + t for t in btexts])
+    cov["builtin_functions_checked"] = len(btab)
+    for (n, k, ar), t, h in zip(btab + btab, btexts, bh):
+        want = "(%s " % k
+        if not (h.startswith(want) or h.startswith("(MULT (UNARY_MINUS " + want)):
+            ctx.finding("builtin:%s" % n, "builtin function %r: the parser builds %s, the language reference says kind %s with %s argument(s)" % (t, h[:200], k, ar),
+                        {"entry": "parse_XTA(text, builder, true, S_EXPRESSION)", "text": t, "observed": h, "expected_kind": k})
+    # calls of a process set: P(e1, e2).x selects the process with the arguments in the order written --------------------------------
+    pcases = []
+    pool = [t for _o, t, k in texts if k is not None][:200] or ["a", "b + 1"]
+    for i in range(60 if not ctx.thorough else 600):
+        e = [ctx.rng.choice(pool) for _ in range(3)]
+        if ctx.rng.random() < 0.5:
+            pcases.append(("PS", e[:2], "PS(%s, %s).px" % (e[0], e[1])))
+        else:
+            pcases.append(("PT", e, "PT(%s, %s, %s).pz" % tuple(e)))
+    _, pargs, _ = run_lines(har, ["P\t(" + a + ")" for _n, es, _t in pcases for a in es])
+    _, ptree, _ = run_lines(har, ["P\t" + t for _n, _es, t in pcases])
+    pi = 0
+    nps = 0
+    for (pn, es, t), h in zip(pcases, ptree):
+        trees = pargs[pi:pi + len(es)]
+        pi += len(es)
+        if any(not x.startswith("(") for x in trees) or "," in "".join(es):
+            continue          # an argument that is rejected / has a diagnostic of its own, or a comma expression
+        want = "(IDENTIFIER %s)" % pn
+        for x in trees:
+            want = "(ARRAY %s %s)" % (want, x)
+        want = "(DOT %s %s)" % ("px" if pn == "PS" else "pz", want)
+        nps += 1
+        if h != want and not h.startswith("SEMERR"):
+            ctx.finding("process-set-call:%d-arguments" % len(es), "%r: the document holds %s, the arguments as written select %s" % (t, h[:300], want[:300]),
+                        {"entry": "parse_XTA(text, builder, true, S_EXPRESSION)", "text": t, "observed": h, "expected": want})
+    cov["process_set_calls_checked"] = nps
     # literals ------------------------------------------------------------------------------------
     ints, floats = literal_cases(ctx.rng)
     _, li, _ = run_lines(drv, ["L\t" + x for x in ints])
